@@ -220,6 +220,12 @@ func (b *Batch) Commit() error {
 	if err != nil {
 		return err
 	}
+	// 批处理完成标识同样需要持久化, 否则掉电后整个批处理会被丢弃
+	if b.options.Sync {
+		if err := b.db.activeFile.Sync(); err != nil {
+			return err
+		}
+	}
 
 	b.staged = nil
 	b.stageIndex = nil
